@@ -40,6 +40,7 @@ pub struct Tables {
     pub mutex_fields: BTreeSet<String>,
     pub drop_types: BTreeSet<String>,     // types with an extracted `drop`
     pub backparam_fns: BTreeMap<String, String>, // "Type::method" -> param name
+    pub fn_ret_head: BTreeMap<String, String>, // extracted function name -> `Result` / `Option` (head of its declared return type)
     pub field_types: BTreeMap<(String, String), String>, // (struct, field) -> declared type, spaces removed
     pub mutref_params: BTreeMap<String, Vec<usize>>, // method name -> positions of parameters retyped to `&mut T` (a `&x` argument becomes `&mut x`)
     pub ghost_structs: BTreeMap<String, Vec<(String, String)>>, // struct -> (field, init)
@@ -1408,7 +1409,11 @@ impl<'a> Elab<'a> {
         }
         // `X.map(|p| B)` in a unit that declares `resultmap` (every closure-`map` of the unit is on a Result), or on the block an
         // inlined helper leaves, whose declared return type says `Result` / `Option`
-        let recv_head = annotated_block_head(&m.receiver);
+        let recv_head = annotated_block_head(&m.receiver).or_else(|| match peel_paren(&m.receiver) {
+            // `self.f(..).map(..)` with `f` a function under contract: its declared return type
+            Expr::MethodCall(mc) if matches!(&*mc.receiver, Expr::Path(p) if p.path.is_ident("self")) => self.t.fn_ret_head.get(&mc.method.to_string()).cloned(),
+            _ => None,
+        });
         if method == "map" && m.args.len() == 1 && (self.u.resultmap || recv_head.as_deref() == Some("Result")) && recv_head.as_deref() != Some("Option") {
             if let Expr::Closure(cl) = &m.args[0] {
                 if cl.inputs.len() == 1 {
